@@ -12,7 +12,7 @@ STUB_COLOR = ["657-entry colour table -> 3 opaque names with symbolic distinct m
 
 def build(tier, seed):
     quick = tier == "quick"
-    T = 90 if quick else 600
+    T = 240 if quick else 600
     obs = []
     obs.append(Ob(
         oid="O1.kernel", sig="r0: int, r1: int, r2: int, alias: bool, u0: bool, u1: bool, u2: bool, dup: bool",
